@@ -2,7 +2,8 @@
   C09 — model of the relational engine's transaction layer
   (/repo/relational_engine/src/lib.rs: begin_transaction, tx_insert, tx_update, tx_delete,
    commit, rollback, apply_undo_entry, index_add/remove, btree_index_add/remove,
-   create/drop_index, create/drop_btree_index, select;
+   create/drop_index, create/drop_btree_index, select, tx_select, batch_insert, try_index_lookup,
+   Condition::evaluate, active_transaction_count;
    /repo/relational_engine/src/transaction.rs: TransactionManager, RowLockManager;
    /repo/tensor_store/src/relational_slab.rs: insert/delete/update/restore_row/restore_deleted_row).
 
@@ -35,8 +36,19 @@
     exactly as in the code (so they consume a transaction id and honour row locks);
   * time is the explicit `now` (milliseconds), advanced only by `tick`.
 
-  Values are `Val` (non-null); a table has `ncols` Val columns.  Not modelled: other value
-  types, NULLs, constraints, `_id` indexes, drop_table, the b-tree entry cap, durable mode.
+  Values are `Val` = NULL | Int; a table has `ncols` Int columns, each nullable or not
+  (`Table.nullable`): an insert must give every non-nullable column a non-NULL value and an update
+  may assign NULL to nullable columns only (`NullNotAllowed`); an omitted column is stored and
+  indexed as NULL.  Comparisons follow `partial_cmp_value` (NULL on either side: false; `Eq` / `Ne`
+  compare NULL like any value), the b-tree keys follow `OrderedKey` (NULL sorts first), so a range
+  lookup may return NULL-keyed candidates which the re-check drops.  Conditions: `True`, `_id =`,
+  the six comparisons, `And`, `Or`; `try_index_lookup` serves `Eq` by a hash index, ranges by a b-tree
+  index and `And` by the index of its left side, else of its right side.  `tx_select` = phase check +
+  `select`; `batch_insert` appends rows outside any transaction.
+  The two halves of `tx_update` / `tx_delete` (scan, then lock + apply) are in `RaceModel.lean`.
+  Not modelled: other value types (they behave like Int with their own hash key and order),
+  constraints, `_id` indexes, drop_table / ALTER TABLE, the condition depth limit, query timeouts
+  and result caps, the b-tree entry cap, durable mode.
 -/
 namespace Neumann.RelTx
 
